@@ -312,8 +312,8 @@ fn check(w: &mut Worker, rig: &Rig, tokens: &[String], phase: &str, nontrivial: 
 
 pub fn bounds(tier: Tier) -> Value {
     match tier {
-        Tier::Quick => json!({"max_tokens": 9, "spelling_pass_max_tokens": 4}),
-        Tier::Thorough => json!({"max_tokens": 12, "spelling_pass_max_tokens": 5}),
+        Tier::Quick => json!({"max_tokens": 11, "spelling_pass_max_tokens": 4}),
+        Tier::Thorough => json!({"max_tokens": 14, "spelling_pass_max_tokens": 5}),
     }
 }
 
@@ -335,7 +335,7 @@ pub fn worker(w: &mut Worker) {
     let tier = w.tier;
     let rig = Rig::new();
     // pass 1: grammar sentences with true/false, generated from the (unambiguous) grammar by length
-    let lmax = tier.pick(9usize, 12usize);
+    let lmax = tier.pick(11usize, 14usize);
     let sentences = Sentences::upto(lmax);
     for n in 1..=lmax {
         for seq in &sentences.cond[n] {
